@@ -403,6 +403,72 @@ pub fn remove_then_evict(b: u64, which: usize, rng: &mut Rng, out: &mut Out) -> 
     ops
 }
 
+/// Directed: several nodes behind ONE ip - a BEP42-secure one (S1), an insecure one (U1), then, after one of the two was removed,
+/// newcomers from the same ip that the per-ip rule must still refuse (a second insecure id; a secure id with S1's prefix), in
+/// rounds: whatever the table remembers about the ips it holds must survive a removal that leaves the ip represented.
+pub fn ip_after_remove(b: u64, variant: u64, rng: &mut Rng, out: &mut Out) -> u64 {
+    v::reset_clock();
+    let tid = rng.id();
+    let x = Ipv4Addr::new(80, 10 + variant as u8, 20, 30);
+    let r = rng.below(8) as u8;
+    let sec_id = |rng: &mut Rng| {
+        let mut fill = rng.id();
+        fill[19] = (fill[19] & 0xf8) | r;
+        crypto::bep42_id(x, fill)
+    };
+    let mut u: Vec<UNode> = vec![];
+    // 1: S1, 2: U1, 3..8: insecure newcomers, 9..12: secure ids with S1's prefix, 13: a bystander elsewhere
+    let s1 = sec_id(rng);
+    u.push(UNode { id: s1, addr: SocketAddrV4::new(x, 6881), sec: crypto::bep42_valid(&s1, x) });
+    for i in 0..7u16 {
+        let id = rng.id();
+        u.push(UNode { id, addr: SocketAddrV4::new(x, 6882 + i), sec: crypto::bep42_valid(&id, x) });
+    }
+    for i in 0..4u16 {
+        let id = sec_id(rng);
+        u.push(UNode { id, addr: SocketAddrV4::new(x, 6900 + i), sec: crypto::bep42_valid(&id, x) });
+    }
+    let by = rng.id();
+    u.push(UNode { id: by, addr: SocketAddrV4::new(Ipv4Addr::new(81, 1, 1, 1), 6881), sec: false });
+    let mut index = HashMap::new();
+    for (i, n) in u.iter().enumerate() {
+        index.entry((n.id, n.addr)).or_insert(i);
+    }
+    out.line(&json!({"e":"reset","b":b,"tid":id_json(&tid),
+        "nodes": u.iter().map(|x| json!({"id":id_json(&x.id),"ip":x.addr.ip().to_string(),"port":x.addr.port(),"sec":x.sec})).collect::<Vec<_>>()}));
+    let mut table = RoutingTable::new(Id::from(tid));
+    let mut ops = 0u64;
+    let mut emit = |table: &RoutingTable, mut ev: Value, out: &mut Out| {
+        ev["proj"] = proj(table, &index);
+        ev["size"] = json!(table.size());
+        ev["is_empty"] = json!(table.is_empty());
+        ev["iter"] = json!(table.nodes().map(|x| index.get(&(*x.id().as_bytes(), x.address())).map(|i| *i as i64 + 1).unwrap_or(-1)).collect::<Vec<i64>>());
+        ev["to_bootstrap"] = json!(table.to_bootstrap().len());
+        out.line(&ev);
+        1u64
+    };
+    let script: Vec<(&str, usize)> = match variant {
+        // S1, U1; S1 leaves; a second insecure id from the ip; and again after the bystander came and went
+        0 => vec![("add", 1), ("add", 2), ("add", 13), ("remove", 1), ("add", 3), ("add", 4), ("remove", 13), ("add", 5), ("add", 1), ("remove", 1), ("add", 6)],
+        // S1, U1; U1 leaves; a secure id with S1's prefix; an insecure id (admissible again); then a second one (not)
+        1 => vec![("add", 1), ("add", 2), ("remove", 2), ("add", 9), ("add", 3), ("add", 4), ("remove", 3), ("add", 10), ("add", 5), ("add", 6)],
+        // the insecure one first, then S1 (admissible), then removals in the other order
+        _ => vec![("add", 2), ("add", 1), ("add", 3), ("remove", 2), ("add", 9), ("add", 3), ("add", 4), ("remove", 1), ("add", 5), ("add", 11), ("add", 12)],
+    };
+    for (op, n) in script {
+        if op == "add" {
+            let ret = table.add(Node::new(Id::from(u[n - 1].id), u[n - 1].addr));
+            ops += emit(&table, json!({"e":"op","op":"add","n":n,"ret":ret}), out);
+        } else {
+            table.remove(&Id::from(u[n - 1].id));
+            ops += emit(&table, json!({"e":"op","op":"remove","n":n}), out);
+        }
+        v::advance(Duration::from_millis(1000));
+        ops += emit(&table, json!({"e":"op","op":"advance","ms":1000}), out);
+    }
+    ops
+}
+
 /// Directed: a bucket of twenty nodes heard at t0 - 1 s (nineteen) and t0 (X, the last one); X is heard again at t0 + 8 s, the
 /// nineteen others at t0 + 20 s, and a newcomer for the bucket arrives at t0 + 905 s: X was heard 897 s ago - not stale - and stays.
 pub fn reheard_then_evict(b: u64, rng: &mut Rng, out: &mut Out) -> u64 {
@@ -501,6 +567,14 @@ pub fn run(args: &Args) -> i32 {
         for (k, which) in [0usize, 7, 19].iter().enumerate() {
             if only.is_none() || only == Some(n + big + 1 + k as u64) {
                 ops += remove_then_evict(n + big + 1 + k as u64, *which, &mut rng, &mut out);
+                directed += 1;
+            }
+        }
+    }
+    if big > 0 {
+        for variant in 0..3u64 {
+            if only.is_none() || only == Some(n + big + 5 + variant) {
+                ops += ip_after_remove(n + big + 5 + variant, variant, &mut rng, &mut out);
                 directed += 1;
             }
         }
